@@ -236,6 +236,12 @@ def scenarios():
               wall(3, 1) + wall(4, 1)}],
               "requests": [req(0, "recv", "K", 1, 3, [0], socket=0), req(0, "recv", "K", 1, 4, [1], socket=1)],
               "streams": [{"key": [1, 0, "recv"], "responses": K(1, [1])}, {"key": [1, 1, "recv"], "responses": K(1, [2])}]})
+    # a pooled id array that is LONGER than one request needs (the request uses its first entries), re-filled for the next request
+    S.append({"name": "qubit-id-pool-longer-than-the-request-reused", "apps": [{"app": 0, "unit": 3, "text":
+              arr(0, 10) + arr(1, 3) + stores(1, [0, 2, 2]) + "recv_epr(1,0) 1 0\n" + arr(2, 10) + stores(1, [1, 2, 2]) + "recv_epr(1,1) 1 2\n" +
+              wall(0, 1) + wall(2, 1)}],
+              "requests": [req(0, "recv", "K", 1, 0, [0], socket=0), req(0, "recv", "K", 1, 2, [1], socket=1)],
+              "streams": [{"key": [1, 0, "recv"], "responses": K(1, [1])}, {"key": [1, 1, "recv"], "responses": K(1, [2])}]})
     S.append({"name": "qubit-id-array-reused-by-the-next-create-request", "apps": [{"app": 0, "unit": 3, "text":
               create(0, 1, [0], 2, 0, 1, socket=0) + arr(5, 10) + stores(1, [2]) + "create_epr(1,1) 1 2 5\n" + wall(0, 1) + wall(5, 1)}],
               "requests": [req(0, "create", "K", 1, 0, [0], socket=0), req(0, "create", "K", 1, 5, [2], socket=1)],
